@@ -5,6 +5,7 @@ import Proofs.WFCheck
 import Proofs.Containers
 import Proofs.Aligned
 import Proofs.BackGlobal
+import Proofs.Counted
 /-! driver command `J {"op":"sched", …}`: run the scheduler model on one scenario projection -/
 namespace SPD
 open SP Lean
@@ -151,6 +152,18 @@ def runSched (j : Json) : Json :=
     match (σ.tst ts.2).start, (σ.tst ts.1).stop with
     | some ss, some v => !((σ.tst ts.2).scheduled && decide (v + succGap e ts.1 ts.2 ≤ ss))
     | _, _ => !(σ.tst ts.2).scheduled)
+  -- limits: per limit and period, the covered ledger entries number at most the counter and the value, their seconds <= value x G
+  let trips : List Trip := σ.led.m.toList.flatMap (fun (ks : Key × Slot) =>
+    ((ks.2.usage.map (·.1)).eraseDups).map (fun t => (ks.1.1, ks.1.2, t)))
+  let limChecks := (List.range e.limits.size).flatMap (fun lid =>
+    let cov := trips.filter (fun x => (bookPairs e x.1 x.2.2).any (fun q => q.1 == lid && applies e q))
+    let periods := (cov.map (fun x => e.period (e.limitD lid) x.2.1)).eraseDups.filter (fun p => decide (0 ≤ p))
+    periods.map (fun p =>
+      let L := cov.filter (fun x => e.period (e.limitD lid) x.2.1 == p)
+      let ok := decide ((L.length : Int) ≤ σ.cnt.get lid p) && decide ((L.length : Int) ≤ max 0 (e.limitD lid).value) &&
+        decide (sumTrips σ L ≤ (max 0 (e.limitD lid).value : Int) * (e.G : Rat))
+      (lid, p, ok)))
+  let limFail := limChecks.filter (fun x => !x.2.2)
   -- containers: scheduled => children scheduled and dates = min / max; all children scheduled => scheduled
   let conts := (List.range e.tasks.size).filter (fun c => !(e.taskD c).leaf && !(e.taskD c).children.isEmpty)
   let contFail := conts.filter (fun c =>
@@ -165,6 +178,7 @@ def runSched (j : Json) : Json :=
   let nAligned := ((List.range e.res.size).filter (fun r => calAlignedB el.cal (el.rcal.getD r {}))).length
   let thm := Json.mkObj [("resources", Json.num (JsonNumber.fromNat e.res.size)), ("resources_aligned", Json.num (JsonNumber.fromNat nAligned)),
                          ("back_edges", Json.num (JsonNumber.fromNat backPairs.length)), ("back_fail", Json.num (JsonNumber.fromNat backFail.length)),
+                         ("limit_periods", Json.num (JsonNumber.fromNat limChecks.length)), ("limit_fail", Json.num (JsonNumber.fromNat limFail.length)),
                          ("containers", Json.num (JsonNumber.fromNat conts.length)), ("container_fail", Json.num (JsonNumber.fromNat contFail.length)),
                          ("elig", Json.num (JsonNumber.fromNat eligs.length)), ("elig_scheduled", Json.num (JsonNumber.fromNat eligSched.length)),
                          ("effort_exact_fail", Json.num (JsonNumber.fromNat effortFail.length)),
